@@ -56,8 +56,11 @@ type Stats struct {
 	StepCapped  int64
 	Diverged    []string
 	Deadlines   int64
-	Races       map[string]vrt.Race
-	obs         map[string]int64
+	// Nondeterministic is set when replaying the default schedule twice gave two
+	// different executions (an uncaptured source of nondeterminism: harness defect).
+	Nondeterministic bool
+	Races            map[string]vrt.Race
+	obs              map[string]int64
 }
 
 func (s *Stats) Observations() map[string]int64 { return s.obs }
@@ -101,6 +104,13 @@ func (x *Explorer) explore(prefix []int, depth int, owned bool) {
 		}
 	}
 	res, v := x.runOnce(prefix)
+	if depth == 0 && res.Diverged == "" && !res.Deadline {
+		// determinism self-check: the same (empty) prefix must give the same execution
+		res2, v2 := x.runOnce(prefix)
+		if Signature(res2) != Signature(res) || v2.Clause != v.Clause {
+			x.Stats.Nondeterministic = true
+		}
+	}
 	if res.Diverged != "" {
 		if len(x.Stats.Diverged) < 5 {
 			x.Stats.Diverged = append(x.Stats.Diverged, fmt.Sprintf("%v: %s", prefix, res.Diverged))
